@@ -171,6 +171,7 @@ def hyp_run(ctx, stats, strategy, predicate, max_examples, salt=0, shrink=True, 
     from hypothesis import HealthCheck, Phase, given, seed, settings
 
     last = {}
+    shrink_budget = SHRINK_BUDGET_S[ctx.tier]
 
     phases = [Phase.generate, Phase.target]
     if shrink:
@@ -189,9 +190,15 @@ def hyp_run(ctx, stats, strategy, predicate, max_examples, salt=0, shrink=True, 
     )
     @given(strategy)
     def test(case):
+        if "t0" in last and time.time() - last["t0"] > shrink_budget:
+            # shrinking has had its time: let Hypothesis wind down (it may then report flakiness,
+            # which hyp_run turns back into the recorded failure)
+            last["budget_hit"] = True
+            return
         try:
             check_case(ctx.pid, predicate, case, stats, limit=limit)
         except Violation as v:
+            last.setdefault("t0", time.time())
             last["case"] = v.case
             last["failures"] = v.failures
             raise
@@ -201,6 +208,8 @@ def hyp_run(ctx, stats, strategy, predicate, max_examples, salt=0, shrink=True, 
     except Violation:
         return dict(last)
     except Exception as exc:  # noqa: BLE001
+        if _is_flaky(exc) and last.get("budget_hit"):
+            return {"case": last["case"], "failures": last["failures"]}
         if _is_flaky(exc) and last:
             # the predicate failed on a concrete case, but Hypothesis could not reproduce it while
             # shrinking: the code under test keeps state across cases.  The observed failure stands.
@@ -211,12 +220,23 @@ def hyp_run(ctx, stats, strategy, predicate, max_examples, salt=0, shrink=True, 
     return None
 
 
+SHRINK_BUDGET_S = {"quick": 45, "thorough": 240}
+
+
+def shrink_budget_exceeded(sink, tier="quick"):
+    """State machines ask this at the start of every step (see hyp_run for the rationale)."""
+    if sink and "t0" in sink and time.time() - sink["t0"] > SHRINK_BUDGET_S.get(sink.get("tier", tier), 45):
+        sink["budget_hit"] = True
+        return True
+    return False
+
+
 def machine_run(ctx, stats, machine_cls, max_examples, steps, salt=0):
     """Run a RuleBasedStateMachine; the machine raises Violation itself."""
     from hypothesis import HealthCheck, Phase, seed, settings
     from hypothesis.stateful import run_state_machine_as_test
 
-    last = {}
+    last = {"tier": ctx.tier}
     machine_cls._sink = last  # machines record their failing history here
     machine_cls._stats = stats
     try:
@@ -238,6 +258,8 @@ def machine_run(ctx, stats, machine_cls, max_examples, steps, salt=0):
         return {"case": v.case, "failures": v.failures}
     except Exception as exc:  # noqa: BLE001
         if _is_flaky(exc) and last.get("case") is not None:
+            if last.get("budget_hit"):
+                return {"case": last["case"], "failures": last["failures"]}
             return {"case": last["case"],
                     "failures": [dict(f, flaky_under_hypothesis=True) for f in last["failures"]]}
         raise
@@ -247,6 +269,7 @@ def machine_run(ctx, stats, machine_cls, max_examples, steps, salt=0):
 def record_violation(sink, case, failures):
     """State machines call this right before raising Violation (see machine_run)."""
     if sink is not None:
+        sink.setdefault("t0", time.time())
         sink["case"] = case
         sink["failures"] = failures
 
